@@ -187,7 +187,14 @@ func (valdec mapDecoder) decodeObjectAsMap(dec *Decoder, p interface{}, tag byte
 	dec.AddReference(p)
 	if fields := structInfo.fields; fields != nil {
 		for _, name := range structInfo.names {
-			field := fields[name]
+			field, ok := fields[name]
+			if !ok {
+				// the class declares a field the struct does not have
+				var v interface{}
+				dec.decodeInterface(dec.NextByte(), &v)
+				valdec.t.UnsafeSetIndex(mp, reflect2.PtrOf(name), reflect2.PtrOf(&v))
+				continue
+			}
 			vp := field.Type.UnsafeNew()
 			field.Decode(dec, field.Type.Type1(), vp)
 			v := field.Type.UnsafeIndirect(vp)
